@@ -234,7 +234,7 @@ class AMF:
                 qos=bytes(s.R.randrange(256) for _ in range(s.R.choice([9,40,300])))
                 acc=bytes([0x2e,psi,sm[2],0xc2,0x11])+len(qos).to_bytes(2,'big')+qos+bytes([6,1,0,100,1,0,100])
                 if s.R.random()<0.5: acc+=bytes([0x59,0x32])
-                acc+=bytes([0x29,5,1])+ue.ip+bytes([0x22,4,1,1,2,3,0x25,9,8])+b'internet'
+                acc+=bytes([0x29,5,1])+ue.ip+s.R.choice([b'', b'', bytes([0x22,4,1,1,2,3]), bytes([0x25,9,8])+b'internet', bytes([0x22,4,1,1,2,3,0x25,9,8])+b'internet'])   # everything after the Session-AMBR is optional: the PDU address may be the last IE
                 dl=bytes([0x7e,0,0x68,1])+len(acc).to_bytes(2,'big')+acc+bytes([0x12,psi])
                 tt='ngapType.PDUSessionResourceSetupRequestTransferIEs'
                 qf={'QosFlowIdentifier':1,'QosFlowLevelQosParameters':{'QosCharacteristics':{'NonDynamic5QI':{'FiveQI':9}},'AllocationAndRetentionPriority':{'PriorityLevelARP':8,'PreEmptionCapability':0,'PreEmptionVulnerability':0}}}
